@@ -1006,11 +1006,13 @@ def rule_available_banks(repo, rep):
             for lut in (False, True):
                 self_ = AObj("arch", {"shram_total_banks": total, "shram_reserved_unused_banks": reserved}, cls="ArchitectureFeatures")
                 ps = [p for p in it.run("ArchitectureFeatures.available_shram_banks", lambda s_=self_, l_=lut: ([s_, l_], {})) if p.kind == "return"]
-                if len(ps) != 1:
-                    raise AnalysisError(f"available_shram_banks: {len(ps)} paths for concrete arguments")
+                if not ps:
+                    raise AnalysisError("available_shram_banks: no returning path for concrete arguments")
                 want = total - (2 if lut and reserved == 0 else 0)
                 n += 1
-                rep.check(ps[0].value == want, "C04-o", site, f"total {total}, reserved {reserved}, LUT {lut}: {want} banks", f"returns {ps[0].value}: a kernel without a LUT on a 16-bank part is modelled as leaving the last two banks alone - "
+                # a test of something other than the two inputs forks: the result must be right on every path
+                vals = sorted({p.value if isinstance(p.value, int) else str(p.value) for p in ps}, key=str)
+                rep.check(vals == [want], "C04-o", site, f"total {total}, reserved {reserved}, LUT {lut}: {want} banks", f"returns {vals}: a kernel without a LUT on a 16-bank part is modelled as leaving the last two banks alone - "
                           "the LUT DMA that follows gets no KERNEL_WAIT although the kernel's accumulators occupy them")
     if n < 12:
         raise AnalysisError("available_shram_banks: grid not evaluated")
